@@ -3,6 +3,7 @@ package props
 import (
 	"encoding/json"
 	"fmt"
+	"strings"
 
 	"verif/core"
 	"verif/gen"
@@ -143,20 +144,59 @@ func (C09) growth(tp *tape.Tape) core.Result {
 	sw := drawSwarm(tp)
 	g := newGen(tp, sw)
 	defs := buildDefs(g, sw)
-	kind := tp.Draw(3) // 0 while in function, 1 for in function, 2 top-level for
+	kind := tp.Draw(8)
 	n := 3 + tp.Draw(6)
-	body := g.BodyStmts(g.EmptyFuncScope("i", "n", "e"), 1+tp.Draw(3))
-	var def, call1, call2 string
+	body := g.BodyStmts(g.EmptyFuncScope("i", "n", "e", "s", "r"), 1+tp.Draw(3))
+	// what the loop body ends in: the statement form whose value (or absence of one) the loop
+	// has to pop, keep or hand on, per iteration
+	tails := []string{"", "i * 2 + 1", "toa(i)", "deep(1)", "[i, i + 1]", "if i % 2 == 0 {\ni\n} else {\ni + 1\n}", "if i % 2 == 0 {\ni * 3\n}",
+		"if true {\nq = i\nq + 1\n}", "\"s\" + toa(i)", "\"abcd\"[i % 3]", "(x) -> x + i", "[1, 2, 3][i % 3:3]", "-i", "i < 3", "#toa(i)", "deep(i % 3) + deep(1)"}
+	tail := tails[tp.Draw(len(tails))]
+	withTail := func(b []string, counter bool) []string {
+		out := append([]string{}, b...)
+		if counter {
+			out = append(out, "i = i + 1")
+		}
+		if tail != "" {
+			out = append(out, tail)
+		}
+		return out
+	}
+	forBody := withTail(body, false)
+	r.Inc("growth.tail."+shapeOf(trunc(tail, 12)), 1)
+	var def, call1, call2, topLoop string
 	switch kind {
-	case 0:
-		def = "lp = (n) -> {\ni = 0\nwhile i < n " + gen.Block(append(append([]string{}, body...), "i = i + 1")) + "\n}"
-	case 1:
-		def = "lp = (n) -> for e <- fromto(0, n) " + gen.Block(body)
-	default:
-		def = "lp = (n) -> {\ni = 0\nwhile i < n " + gen.Block(append(append([]string{}, body...), "i = i + 1")) + "\ni\n}"
+	case 0: // while as the last statement of a function (returning position)
+		def = "lp = (n) -> {\ni = 0\nwhile i < n " + gen.Block(withTail(body, true)) + "\n}"
+	case 1: // for as the whole function body (returning position)
+		def = "lp = (n) -> for i <- fromto(0, n) " + gen.Block(forBody)
+	case 2: // while in discarded position
+		def = "lp = (n) -> {\ni = 0\nwhile i < n " + gen.Block(withTail(body, true)) + "\ni\n}"
+	case 3: // while whose value is used: last statement of a conditional branch in returning position
+		def = "lp = (n) -> {\ni = 0\nif n > 0 {\nwhile i < n " + gen.Block(withTail(body, true)) + "\n} else {\n0\n}\n}"
+	case 4: // for in discarded position, then a for as the tail of a conditional branch
+		def = "lp = (n) -> {\nfor i <- fromto(0, n) " + gen.Block(forBody) + "\nif n > 0 {\nfor i <- fromto(0, n) " + gen.Block(forBody) + "\n}\n}"
+	case 7: // top-level loop statement: value displayed in REPL flavour, discarded in script flavour
+		def = "lp = 0"
+		topLoop = "{\ni = 0\nwhile i < @N@ " + gen.Block(withTail(body, true)) + "\n}"
+		if tp.Bool() {
+			topLoop = "for i <- fromto(0, @N@) " + gen.Block(forBody)
+		}
+	case 5: // a generator whose last statement is a while ending in a yield, consumed by a loop
+		yt := "yield i * 2"
+		if tail != "" && !strings.HasPrefix(tail, "if ") && tp.Bool() {
+			yt = "yield " + tail
+		}
+		def = "lp = (n) -> {\ngg = (m) -> {\ni = 0\nwhile i < m " + gen.Block(append(append(append([]string{}, body...), "i = i + 1"), yt)) + "\n}\ns = 0\nfor e <- gg(n) {\ns = s + 1\n}\ns\n}"
+	default: // nested: a for inside a while, both ending in the tail
+		def = "lp = (n) -> {\ni = 0\nwhile i < n " + gen.Block(append(append([]string{}, "for e <- fromto(0, 2) "+gen.Block(withTail(body, false))), withTail(nil, true)...)) + "\n}"
 	}
 	call1 = fmt.Sprintf("lp(%d)", n)
 	call2 = fmt.Sprintf("lp(%d)", 2*n)
+	if topLoop != "" {
+		call1 = strings.ReplaceAll(topLoop, "@N@", fmt.Sprint(n))
+		call2 = strings.ReplaceAll(topLoop, "@N@", fmt.Sprint(2*n))
+	}
 	h := &Hist{Flavour: flavour(sw.Repl), Notes: fmt.Sprintf("growth clause: twin A runs %s, twin B runs %s, then A re-submits %s", call1, call2, call1)}
 	key := core.NewHash().Str("growth").Str(h.Flavour).Str(shapeOf(def))
 	trace := core.NewHash()
